@@ -18,9 +18,17 @@
         net1/net2 are the validated configurations the handler carries (as it saves them); nextIP is the
         zero Addr (handler just constructed)
       observation: ack <addr> | offer <addr> | nak | none | fuel
+   cont MODE HOSTIP HOSTMAC ROUTERIP ROUTERMAC HOMEIP HOMEBITS NFIP NFBITS DNS <n> <rlease>*n <op>*
+        a continuation history after a restart, run by the DHCP cluster's model (Model/DHCP.v [run]) from the
+        restored state: table = the n restored leases (rlease = cid,mac,ip,net,expiry-seconds, all Allocated),
+        cursors at FirstIP, session = NewSession (own host + router) — ops in Model/DHCPShow.v's format
+        (leading C,mac ops set the capture state)
+      observation: one token per op (- | N | O<yiaddr> | A<yiaddr>), then " | " and the table sorted by client id
+        (cid/state/ip/net)
    save <lease>*|-   (the in-memory table, any state; a single - for the empty table)
       observation: the lease records of the written document, sorted by client id *)
 From PV Require Import Base.Text Model.LeaseBase Model.Lease Model.LeaseKnown Model.LeaseServe.
+From PV Require Model.DHCP Model.DHCPShow.
 Open Scope string_scope.
 Open Scope N_scope.
 
@@ -220,6 +228,50 @@ Definition serve (kind : string) (args : list string) : string :=
   | _ => BADARGS
   end.
 
+(* ---------------- continuation after a restart: the DHCP cluster's model from the restored state ---------------- *)
+Definition rlease_of_tok (s : string) : option DHCP.lease :=
+  match split ","%char s with
+  | [cid; mac; ip; net; ex] =>
+      match bytes_of_tok cid, DHCPShow.N_of_hex mac, DHCPShow.N_of_hex ip, N_of_dec net, Z_of_dec ex with
+      | Some c, Some m, Some a, Some k, Some e =>
+          Some (DHCP.mkLease (DHCPShow.cid_of_bytes c) DHCP.SAllocated m (Some a) None None (k =? 2) e)
+      | _, _, _, _, _ => None
+      end
+  | _ => None
+  end.
+
+Definition show_creply (r : option DHCP.reply) : string :=
+  match r with
+  | None => "-"
+  | Some r => match DHCP.r_type r with
+              | DHCP.RNak => "N"
+              | DHCP.ROffer => "O" ++ DHCPShow.hexw 4 (DHCP.r_yi r)
+              | DHCP.RAck => "A" ++ DHCPShow.hexw 4 (DHCP.r_yi r)
+              end
+  end.
+Definition show_clease (l : DHCP.lease) : string :=
+  tok_of_bytes (DHCPShow.bytes_of_cid (DHCP.l_cid l)) ++ "/" ++ DHCPShow.show_state (DHCP.l_state l) ++ "/" ++
+  DHCPShow.show_oip (DHCP.l_ip l) ++ "/" ++ (if DHCP.l_net2 l then "2" else "1").
+
+Definition cont (args : list string) : string :=
+  match DHCPShow.parse_cfg args with
+  | Some (c, n :: rest) =>
+      match nat_of_dec n with
+      | Some n' =>
+          match all_some (map rlease_of_tok (firstn n' rest)), DHCPShow.parse_ops (skipn n' rest) with
+          | Some ls, Some ops =>
+              let s0 := DHCP.mkSt ls (DHCP.n_first c false) (DHCP.n_first c true) (DHCP.sess_init c) in
+              let '(s, rs) := DHCP.run c s0 (DHCPShow.with_ch0 ops) in
+              out3 (join " " (map show_creply rs) ++ " | " ++
+                    show_list (map show_clease (sort_by (fun l => DHCPShow.bytes_of_cid (DHCP.l_cid l)) (DHCP.tbl s))))
+                   "-" "-"
+          | _, _ => BADARGS
+          end
+      | None => BADARGS
+      end
+  | _ => BADARGS
+  end.
+
 (* ---------------- dispatch ---------------- *)
 Definition input_of_args (a : list string) : option input :=
   match a with
@@ -263,6 +315,7 @@ Definition dispatch (kind : string) (args : list string) : string :=
     | _ => BADARGS
     end
   else if String.eqb kind "renew" || String.eqb kind "offer" then serve kind args
+  else if String.eqb kind "cont" then cont args
   else if String.eqb kind "save" then
     match all_some (map rec_of_tok (filter (fun a => negb (String.eqb a "-")) args)) with
     | Some rs => out3 (show_list (map show_rec (sort_by r_cid (save_leases (map lease_of_rec rs))))) "-" "-"
